@@ -5,6 +5,7 @@ import (
 	"bytes"
 	"errors"
 	"fmt"
+	"io"
 	"strings"
 
 	"github.com/yuin/goldmark/text"
@@ -43,6 +44,73 @@ func (w *faultWriter) Write(p []byte) (int, error) {
 	w.failed = true
 	return n, errFault
 }
+
+// destinations that offer more than io.Writer: a renderer that looks for a richer interface on
+// the destination (to avoid double buffering, say) must report their failures all the same
+type richFault struct{ faultWriter } // Write, WriteByte, WriteRune, WriteString: like a capped bytes.Buffer
+
+func (w *richFault) WriteByte(b byte) error {
+	_, err := w.Write([]byte{b})
+	return err
+}
+func (w *richFault) WriteRune(r rune) (int, error) { return w.Write([]byte(string(r))) }
+func (w *richFault) WriteString(s string) (int, error) { return w.Write([]byte(s)) }
+
+type stringFault struct{ faultWriter } // io.Writer + io.StringWriter
+
+func (w *stringFault) WriteString(s string) (int, error) { return w.Write([]byte(s)) }
+
+type readFromFault struct{ faultWriter } // io.Writer + io.ReaderFrom
+
+func (w *readFromFault) ReadFrom(r io.Reader) (int64, error) {
+	var n int64
+	buf := make([]byte, 512)
+	for {
+		k, err := r.Read(buf)
+		if k > 0 {
+			m, werr := w.Write(buf[:k])
+			n += int64(m)
+			if werr != nil {
+				return n, werr
+			}
+		}
+		if err == io.EOF {
+			return n, nil
+		}
+		if err != nil {
+			return n, err
+		}
+	}
+}
+
+// a complete util.BufWriter of the caller's own, unbuffered, with the sticky error of bufio.Writer:
+// after the first failure every call fails and Flush reports it
+type ownBufFault struct {
+	richFault
+	sticky error
+}
+
+func (w *ownBufFault) note(n int, err error) (int, error) {
+	if err != nil && w.sticky == nil {
+		w.sticky = err
+	}
+	return n, err
+}
+func (w *ownBufFault) Write(p []byte) (int, error) {
+	if w.sticky != nil {
+		return 0, w.sticky
+	}
+	return w.note(w.faultWriter.Write(p))
+}
+func (w *ownBufFault) WriteByte(b byte) error {
+	_, err := w.Write([]byte{b})
+	return err
+}
+func (w *ownBufFault) WriteRune(r rune) (int, error)     { return w.Write([]byte(string(r))) }
+func (w *ownBufFault) WriteString(s string) (int, error) { return w.Write([]byte(s)) }
+func (w *ownBufFault) Available() int                    { return 0 }
+func (w *ownBufFault) Buffered() int                     { return 0 }
+func (w *ownBufFault) Flush() error                      { return w.sticky }
 
 func runC14(c *Ctx) {
 	c.Rep.Rule = "a case is (buffer size, fault offset, write-call sequence) for the bufio model, or (configuration, document, writer kind, fault offset) for Convert; distinct by hash; non-trivial = the fault offset lies strictly inside the output"
@@ -167,8 +235,23 @@ func runC14(c *Ctx) {
 				if k < 0 {
 					continue
 				}
-				for kind := 0; kind < 3; kind++ {
+				for kind := 0; kind < 7; kind++ {
 					fw := &faultWriter{limit: k}
+					var dst io.Writer
+					switch kind {
+					case 3:
+						x := &richFault{faultWriter{limit: k}}
+						fw, dst = &x.faultWriter, x
+					case 4:
+						x := &stringFault{faultWriter{limit: k}}
+						fw, dst = &x.faultWriter, x
+					case 5:
+						x := &readFromFault{faultWriter{limit: k}}
+						fw, dst = &x.faultWriter, x
+					case 6:
+						x := &ownBufFault{richFault: richFault{faultWriter{limit: k}}}
+						fw, dst = &x.faultWriter, x
+					}
 					var err error
 					var pan string
 					func() {
@@ -182,12 +265,19 @@ func runC14(c *Ctx) {
 							err = md.Convert(src, fw)
 						case 1: // caller-supplied bufio.Writer (a BufWriter) through Convert
 							err = md.Convert(src, bufio.NewWriterSize(fw, []int{16, 64, 4096}[k%3]))
-						default: // Parse, then Render
+						case 2: // Parse, then Render
 							doc := md.Parser().Parse(text.NewReader(src))
 							err = md.Renderer().Render(fw, src, doc)
+						default: // destinations with richer interfaces, alternately through Convert and Render
+							if k%2 == 0 {
+								err = md.Convert(src, dst)
+							} else {
+								doc := md.Parser().Parse(text.NewReader(src))
+								err = md.Renderer().Render(dst, src, doc)
+							}
 						}
 					}()
-					in := map[string]interface{}{"config": cf.Name(), "source": q(src[:min(len(src), 200)]), "source_len": len(src), "fault_offset": k, "writer": []string{"io.Writer", "caller bufio.Writer", "Parse+Render"}[kind]}
+					in := map[string]interface{}{"config": cf.Name(), "source": q(src[:min(len(src), 200)]), "source_len": len(src), "fault_offset": k, "writer": []string{"io.Writer", "caller bufio.Writer", "Parse+Render", "Write+WriteByte+WriteRune+WriteString", "io.StringWriter", "io.ReaderFrom", "caller's own BufWriter (sticky error)"}[kind]}
 					switch {
 					case pan != "":
 						c.Violate("writer-fault-panic", in, pan, "writer-fault-panic")
